@@ -42,6 +42,9 @@ pub fn repo_op() -> impl Strategy<Value = Op> {
         2 => any::<u16>().prop_map(Op::MakeEmpty),
         2 => (any::<u16>(), any::<u16>(), any::<u16>()).prop_map(|(a, b, c)| Op::CopyContent(a, b, c)),
         1 => any::<u16>().prop_map(Op::BulkSmall),
+        1 => Just(Op::PackRefs),
+        2 => any::<u16>().prop_map(Op::Restore),
+        2 => any::<u16>().prop_map(Op::RmCached),
     ]
 }
 
